@@ -406,6 +406,25 @@ func genC09(tier string, seed uint64, emit func(string)) {
 		acts = append(acts, "obs", "ping:t", "ping:p", "stop", "obs")
 		emit(lifeLine(cfg, acts))
 	}
+	// "no sequence of faulty clients, of any length": 150 (thorough 700) faulty clients of the quick kinds one after another,
+	// a good one, a Restart, 150 more, a good one - anything a failed handshake leaves behind adds up
+	for _, cfg := range []string{"plain tls cn=client", "plain tlsfiles"} {
+		quick := []string{"none", "plaintext", "selfsigned", "foreign", "expired", "wrongcn", "garbage", "abort"}
+		n := 150
+		if tier == "thorough" {
+			n = 700
+		}
+		acts := []string{"start"}
+		for i := 0; i < n; i++ {
+			acts = append(acts, "tlsbad:"+quick[i%len(quick)])
+		}
+		acts = append(acts, "obs", "ping:t", "ping:p", "restart")
+		for i := 0; i < n; i++ {
+			acts = append(acts, "tlsbad:"+quick[(i+3)%len(quick)])
+		}
+		acts = append(acts, "obs", "ping:t", "ping:p", "stop", "obs")
+		emit(lifeLine(cfg, acts))
+	}
 	// the CA is replaced while the server runs (certificate files re-read, then Restart or Stop/Start, as on SIGHUP): from
 	// the next start on the clients of the retired CA are foreign, and only until then the clients of the new CA are
 	for _, cfg := range []string{"plain tlsfiles", "tlsfiles cn=client", "plain tlsfiles cn=client pw=secret"} {
